@@ -87,6 +87,16 @@ def mask_family():
                 fail("mask.simulate: false flag has non-zero score", score=tr.get_score())
             if bool(pre) and not close(tr.get_score(), tr.inner.get_score()):
                 fail("mask.simulate: true flag score != inner score")
+            # a masked call whose callee returns a mask itself (mask of mask): valid iff both flags are true
+            for f_in in flags(conc):
+                mm = m.mask()
+                t2 = mm.simulate(KEY, (pre, f_in, 0.3))
+                rv2 = t2.get_retval()
+                if not (isinstance(rv2, Mask) and not isinstance(rv2.value, Mask)
+                        and bool(jnp.all(rv2.primal_flag())) == (bool(pre) and bool(f_in))):
+                    fail("mask of mask: the returned mask is not valid exactly when both flags are true", outer=pre, inner=f_in)
+                if not bool(pre) and not close(t2.get_score(), 0.0):
+                    fail("mask of mask: false outer flag has a non-zero score", outer=pre, inner=f_in)
             g, w = m.importance(KEY, C.kw(x=0.7), (pre, 0.3))
             wf(g, f"mask.generate[{pre}]")
             want = normal.assess(C.choice(0.7), (0.3, 1.0))[0] if bool(pre) else 0.0
@@ -534,6 +544,10 @@ def static_family():
     wf(g, "static.generate")
     if not close(w, normal.assess(C.choice(0.7), (0.2, 1.0))[0]):
         fail("static.generate: weight != density of the constrained choice", w=w)
+    g2, w2 = model.importance(KEY, C.d({("sub", "y"): 0.4}), (0.2,))       # a constraint at a tuple address
+    wf(g2, "static.generate[tuple address]")
+    if not (close(g2.get_choices()["sub", "y"], 0.4) and close(w2, normal.assess(C.choice(0.4), (g2.get_choices()["x"], 0.5))[0])):
+        fail("static.generate: a constraint at a tuple address is not installed / not weighed", value=g2.get_choices()["sub", "y"], w=w2)
     for cons in (C.empty(), C.kw(x=1.1), C.d({("sub", "y"): 0.4})):
         for ad in (Diff.no_change((0.2,)), Diff.unknown_change((0.6,))):
             new, w, rd, bwd = model.edit(KEY, tr, Update(cons), ad)
@@ -1701,6 +1715,11 @@ def mask_algebra_family():
         return (True, float(m))
     for (ka, fa), (kb, fb) in itertools.product(kinds.items(), repeat=2):
         for a, b in itertools.product((True, False), repeat=2):
+            # build / maybe_mask of a value that already is a mask: valid iff both flags are true
+            for name, got in (("build", Mask.build(Mask(1.0, fa(a)), fb(b))), ("maybe_mask", Mask.maybe_mask(Mask(1.0, fa(a)), fb(b)))):
+                g = o(got)
+                if g[0] != (a and b) or (g[0] and g[1] != 1.0) or (isinstance(got, Mask) and isinstance(got.value, Mask)):
+                    fail(f"Mask.{name} of a mask: not valid exactly when both flags are true", inner=a, outer=b, flags=f"{ka},{kb}", got=g)
             A, B = Mask(1.0, fa(a)), Mask(2.0, fb(b))
             for name, got, want in (("|", A | B, (a or b, 1.0 if a else 2.0)), ("^", A ^ B, (a != b, 1.0 if a else 2.0))):
                 g = o(got)
